@@ -313,7 +313,7 @@ def worker(case, led):
         q = sectors[len(sectors) // 2]
         mps = U.make_state(cm, q, 3, rng)
         if mps is not None:
-            for gauge in ("fresh", "right", "center"):
+            for gauge in ("fresh", "right", "center", "left"):
                 m2 = S.apply_gauge(mps, gauge, 0)
                 v = S.dense(m2)
                 basis2, ttns2, ttno2 = from_mps(m2)
@@ -321,6 +321,13 @@ def worker(case, led):
                 led.check(close(got, v, 1e-9) and not T.qnv_tree_violations(ttns2), "post:from_mps:state_preserved", "from_mps", f"gauge {gauge}: chain -> tree conversion changed the state",
                           (repr(su["shape"]), flavour, seed, "from_mps", gauge), {}, dict(desc, gauge=gauge))
                 led.check(close(S.dense(m2), v), "frame:from_mps:input", "from_mps", "input chain state changed", (repr(su["shape"]), flavour, seed, "from_mps-frame", gauge), {}, dict(desc, gauge=gauge))
+                # the tree state is a new object: changing it in place (rescale, normalise) leaves the chain it was built from alone, whatever gauge the chain was in
+                try:
+                    ttns2.scale(3.0, inplace=True)
+                    led.check(close(S.dense(m2), v), "frame:from_mps:mutating_the_tree_leaves_the_chain", "from_mps", f"gauge {gauge}: rescaling the tree state in place changed the chain state it came from",
+                              (repr(su["shape"]), flavour, seed, "from_mps-mut", gauge), {}, dict(desc, gauge=gauge))
+                except Exception as e:
+                    led.check(False, "frame:from_mps:mutating_the_tree_leaves_the_chain", "from_mps", f"raised {type(e).__name__}: {e}", (repr(su["shape"]), flavour, seed, "from_mps-mut", gauge), {}, dict(desc, gauge=gauge))
                 led.check(close(T.dense_ttno(ttno2, list(order)), U.dense_terms(cm, terms).real, 1e-9), "post:from_mps:operator", "from_mps", "TTNO of the chain Hamiltonian differs",
                           (repr(su["shape"]), flavour, seed, "from_mps-op", gauge), {}, dict(desc, gauge=gauge))
 
